@@ -56,7 +56,7 @@ def run_chunk(args):
         if time.time() > deadline:
             break
         try:
-            r = campaigns.run_case(camp, seed, tier)
+            r = campaigns.run_case(camp, seed, tier, prop)
         except Exception:
             out['errors'].append({'seed': seed,
                                   'error': traceback.format_exc()})
